@@ -204,3 +204,22 @@ class Program(object):
 
 
 NODE_ROOT = "Node"
+
+
+def ctor_field_map(prog, cname):
+    """{private field: 'ctor:<param>'} for the fields a class (or a base) binds directly to a constructor parameter
+    (`self._x = x`).  Such a field is named by the parameter it stores, so a private rename is not a change."""
+    out = {}
+    for k in prog.mro(cname):
+        ci = prog.classes.get(k)
+        if not ci or "__init__" not in ci.methods:
+            continue
+        fi = ci.methods["__init__"]
+        params = set(fi.params[1:]) | set(fi.kwonly)
+        selfname = fi.params[0] if fi.params else "self"
+        for n in ast.walk(fi.node):
+            if isinstance(n, ast.Assign) and len(n.targets) == 1 and isinstance(n.value, ast.Name) and n.value.id in params:
+                t = n.targets[0]
+                if isinstance(t, ast.Attribute) and isinstance(t.value, ast.Name) and t.value.id == selfname and t.attr.startswith("_") and not t.attr.startswith("__"):
+                    out.setdefault(t.attr, "ctor:%s" % n.value.id)
+    return out
